@@ -472,7 +472,7 @@ SVC_MODEL = {'tms': 'TMS', 'wmts': 'WMTS', 'wmtskvp': 'WMTS', 'kml': 'KML', 'wms
 
 
 class App:
-    def __init__(self, ctx, cache_type, meta, hours, link=None, refresh=False, two=False):
+    def __init__(self, ctx, cache_type, meta, hours, link=None, refresh=False, two=False, auth=False):
         import yaml
         from mapproxy.wsgiapp import make_wsgi_app
         from webtest import TestApp
@@ -496,6 +496,17 @@ class App:
             open(self.ref, 'w').close()
             os.utime(self.ref, (1, 1))
             conf['caches']['c1']['refresh_before'] = {'mtime': self.ref}
+        self.auth = auth
+        # authorization callback: 'partial' with a limited_to box from the middle of the first to the middle of the last
+        # tile column / row of LEVEL: tiles in the outer columns and rows are cut partly, the others lie inside
+        half = 15028131.257091932
+        self.cut_keys = set(k for k in range(NK * NK) if (k % NK in (0, NK - 1) or k // NK in (0, NK - 1))) if auth else set()
+
+        def authorize(service, layers, environ=None, query_extent=None, **kw):
+            return {'authorized': 'partial',
+                    'layers': {'lyr': {'tile': True, 'map': True,
+                                       'limited_to': {'geometry': [-half, -half, half, half], 'srs': 'EPSG:900913'}}}}
+        self.environ = {'mapproxy.authorize': authorize} if auth else {}
         self.two = two
         if two:
             conf['sources']['ov'] = {'type': 'wms', 'req': {'url': 'http://up.invalid/overlay', 'layers': 'o', 'transparent': True},
@@ -637,6 +648,7 @@ class History:
         self.store = {k: None for k in self.keys}      # observed (ts, size, bytes)
         self.seen = {}                                   # key -> (etag, lastmod, body) of the current stored version
         self.validators = {k: [] for k in self.keys}     # validators handed out for k (any version)
+        self.masked = {}                                 # (key, stored bytes) -> masked body (authorization limited_to)
         self.issued = {}                                 # (key, etag) -> (mtime, size) of the version it was issued for
         self.copies = {k: [] for k in self.keys}         # (Last-modified text, body) of 200 answers a client may hold
         self.by_cache = {}                               # key -> True when the current version was written by mapproxy itself
@@ -720,10 +732,14 @@ class History:
         self.terms.append(t)
         self.descr.append({'config': self.label, 'step': step})
 
-    def do_request(self, svc, key, mode, inm, ims, ims_class, ims_t, now):
+    def do_request(self, svc, key, mode, inm, ims, ims_class, ims_t, now, overlap=None):
+        """overlap = (service, colour): while this request waits for the tile lock, another request for the same tile
+        runs to completion (it gets the lock first): schedule `this loads | other loads, locks, refreshes, answers |
+        this locks, re-checks, answers`"""
         ctx = self.ctx
         before = dict(self.store)
         pre = before[key]
+        cut = key in self.app.cut_keys          # authorization limits the answer to a part of this tile (masked image)
         self.up.mode = mode
         self.clock.now = float(now)
         headers = {}
@@ -736,11 +752,43 @@ class History:
                                and os.path.exists(self.app.color_file(self.up.color)))
         stale = self.app.is_stale(pre)
         refreshing = stale and mode in ('ok', 'fail')
+        ran_other = []
+        tm = self.app.tm
+        if overlap is not None:
+            import threading
+            orig_lock = tm.lock
+
+            def gated_lock(tile):
+                if not ran_other:
+                    ran_other.append(True)
+                    tm.lock = orig_lock
+
+                    def other():
+                        self.up.color = overlap[1]
+                        self.do_request(overlap[0], key, 'ok', None, None, 'absent', None, now)
+                    t = threading.Thread(target=other)
+                    t.start()
+                    t.join(60)
+                    ran_other.append(self.up.calls)
+                    self.up.mode = mode
+                return orig_lock(tile)
+            tm.lock = gated_lock
         try:
-            r = self.app.app.get(self.app.url(svc, key), headers=headers, expect_errors=True)
+            r = self.app.app.get(self.app.url(svc, key), headers=headers, expect_errors=True, extra_environ=dict(self.app.environ))
             status, hl, body = r.status_int, [(k, v) for k, v in r.headerlist], r.body
         except Exception as e:  # noqa
             status, hl, body = 599, [], repr(e).encode()[:200]
+        finally:
+            if overlap is not None:
+                tm.lock = orig_lock
+        if ran_other:
+            # the other request has been processed (oracle + model case) on its own; this one is judged against what
+            # was stored when it got the lock
+            before = dict(self.store)
+            pre = before[key]
+            stale = self.app.is_stale(pre)
+            refreshing = stale and mode in ('ok', 'fail')
+            calls0 = ran_other[-1]
         asked = self.up.calls - calls0
         after = self.observe_all()
         self.store = after
@@ -756,6 +804,9 @@ class History:
                 'clock': repr(float(now)), 'stored_before': None if pre is None else [repr(pre[0]), pre[1]],
                 'status': status, 'etag': etag, 'last_modified': lastmod, 'cache_control': [v for k_, v in hl if k_.lower() == 'cache-control'],
                 'body_len': len(body), 'upstream_calls': asked, 'stale_by_refresh_rule': stale,
+                'schedule': ('this request loaded the tile, then waited for the tile lock while the previous request of this log '
+                             '(same tile) ran to completion') if ran_other else None,
+                'limited_to_cuts_tile': cut,
                 'stored_after': None if after[key] is None else [repr(after[key][0]), after[key][1]]}
         self.log.append(step)
         ctx.count('app:svc=' + svc)
@@ -780,13 +831,20 @@ class History:
                 else:
                     self.fail(where + 'stored-tile-error', 'request for a stored tile answered %d' % status, step)
             else:
-                if nostore or etag != cur_etag or lastmod != cur_lm or (status == 200 and body != data):
+                if cut and status == 200:
+                    # the body is the stored image masked by the limited_to area: the first one seen for this stored
+                    # version is the reference for all later ones
+                    ref = self.masked.setdefault((key, data), body)
+                    body_ok = body == ref
+                else:
+                    body_ok = body == data
+                if nostore or etag != cur_etag or lastmod != cur_lm or (status == 200 and not body_ok):
                     self.fail(where + 'validators-unstable',
                               'stored tile (mtime %r, size %d) answered with ETag %r / Last-modified %r / no-store=%r / %s body; '
                               'expected ETag %r, Last-modified %r and the stored bytes'
-                              % (ts, size, etag, lastmod, nostore, 'same' if body == data else 'different', cur_etag, cur_lm), step)
+                              % (ts, size, etag, lastmod, nostore, 'same' if body_ok else 'different', cur_etag, cur_lm), step)
                 prev = self.seen.get(key)
-                cur = (etag, lastmod, data if status == 304 else body)
+                cur = (etag, lastmod, data if (status == 304 or cut) else body)
                 if prev is not None and prev != cur:
                     self.fail(where + 'validators-unstable', 'two answers for the same stored tile differ: %r vs %r'
                               % (prev[:2], cur[:2]), step)
@@ -859,7 +917,7 @@ class History:
                             self.fail(where + 'unsound-304', '304 for a tile created by this request without matching validator', step)
                 if status == 200 and after[key] is None:
                     ctx.problem('harness', 'tile requested with a working upstream was not stored (url mapping?)', step)
-                if status == 200 and after[key] is not None and after[key][2] != body and not linked_existing:
+                if status == 200 and after[key] is not None and after[key][2] != body and not linked_existing and not cut:
                     self.fail(where + 'fresh-body-differs', 'body of the creating answer differs from the stored tile', step)
             elif mode == 'ok' and refreshing:
                 # the refresh rule calls the stored tile stale and the source answers: the tile is written again
@@ -888,7 +946,7 @@ class History:
                         self.fail('refresh-answer-old-timestamp-304' if lastmod == fmt_date(int(pre[0] // 1)) else where + 'fresh-validators',
                                   'the refreshing answer carries ETag %r / Last-modified %r; expected the validators of the new '
                                   'content (timestamp %r, size %r); replaced tile: timestamp %r' % (etag, lastmod, fts, fsize, pre[0]), step)
-                    if status == 200 and body != after[key][2]:
+                    if status == 200 and body != after[key][2] and not cut:
                         self.fail(where + 'fresh-body-differs', 'body of the refreshing answer differs from the stored tile', step)
         if status in (200, 304) and etag is not None:
             self.validators[key].append((etag, lastmod))
@@ -921,6 +979,8 @@ class History:
         if status in (200, 304) and not weird:
             ct = 'content-type' in hd
             b_id = None if (status == 304 and not body) else self.body_id(body)
+            if cut and b_id is not None and pre is not None and not refreshing and self.masked.get((key, pre[2])) == body:
+                b_id = self.body_id(pre[2])       # masked image of the stored tile: the model carries the stored body
             obs = '(Some %s)' % resp_lit(status, b_id, ct, self.tab.src(etag), lastmod_secs(lastmod), public, nostore)
         elif status >= 500:
             obs = '(Some Err500)'
@@ -954,8 +1014,12 @@ def gen_ims(rng, pre_ts, validators):
         # "malformed" is what the stdlib parser rejects; anything it accepts has no oracle expectation (quirk)
         return text, ('bad' if parsedate(text) is None else 'quirk'), None
     if c == 13:
-        return rng.choice(['Thu, 01 Jan 1960 00:00:00 GMT', 'Wed, 31 Dec 1969 23:59:59 GMT', 'Thu, 01 Oct 69 00:00:00 GMT',
-                           'Thu, 45 Oct 2026 99:99:99 GMT']), 'quirk', None
+        # dates before 1970 (read as written since the repair of C20-L4: they lie before the epoch), and one with
+        # out-of-range day / time fields that parsedate lets through (no expectation: quirk)
+        text, t = rng.choice([('Thu, 01 Jan 1960 00:00:00 GMT', -315619200), ('Wed, 31 Dec 1969 23:59:59 GMT', -1),
+                              ('Thu, 01 Oct 69 00:00:00 GMT', -7948800), ('Thu, 01 Oct 100 00:00:00 GMT', -58987872000),
+                              ('Thu, 45 Oct 2026 99:99:99 GMT', None)])
+        return text, ('date' if t is not None else 'quirk'), t
     if c == 14:
         return rng.choice(['Thu, 01 Oct 10000 00:00:00 GMT', 'Fri, 01 Jan 12345678901234567890 00:00:00 GMT']), 'oor', None
     return fmt_date(4102444800), 'date', 4102444800
@@ -1001,18 +1065,23 @@ def run_script(ctx, hist, up, script):
             t = None
             if ims is not None and 'GMT' in ims and ' 1' in ims and ims.split()[3].isdigit() and int(ims.split()[3]) > 9999:
                 cls = 'oor'
-            elif ims is not None and lastmod_secs(ims) is not None and lastmod_secs(ims) >= 0:
+            elif ims is not None and lastmod_secs(ims) is not None and lastmod_secs(ims) not in (-999999, -999998, -999997):
                 cls, t = 'date', lastmod_secs(ims)
             if 'color' in op:
                 up.color = tuple(op['color'])
-            hist.do_request(op.get('svc', 'tms'), key, op.get('mode', 'ok'), inm, ims, cls, t, now)
+            ov = op.get('overlap')
+            hist.do_request(op.get('svc', 'tms'), key, op.get('mode', 'ok'), inm, ims, cls, t, now,
+                            overlap=(ov['svc'], tuple(ov['color'])) if ov else None)
 
 
-def run_history(ctx, cache_type, meta, hours, nsteps, up, clock, script=None, link=None, tz=None, refresh=False, two=False):
+def run_history(ctx, cache_type, meta, hours, nsteps, up, clock, script=None, link=None, tz=None, refresh=False, two=False,
+                auth=False):
     rng = ctx.rng
     label = '%s,meta=%d,max_age=%dh%s%s%s%s' % (cache_type, meta, hours, ',link=' + link if link else '', ',TZ=' + tz if tz else '',
                                               ',refresh_before' if refresh else '', ',two sources' if two else '')
-    app = App(ctx, cache_type, meta, hours, link, refresh, two)
+    if auth:
+        label += ',authorize partial/limited_to'
+    app = App(ctx, cache_type, meta, hours, link, refresh, two, auth)
     up.two = two
     hist = History(ctx, app, up, clock, label)
     if script is not None:
@@ -1084,7 +1153,7 @@ def run_history(ctx, cache_type, meta, hours, nsteps, up, clock, script=None, li
             hist.do_remove(key)
             ctx.count('app:event=remove')
             continue
-        svc = rng.choice(SERVICES)
+        svc = rng.choice(SERVICES[:4] if auth else SERVICES)      # with limited_to a GetMap is always a merged image
         mode = rng.choice(['ok', 'ok', 'ok', 'ok', 'fail', 'fail', 'err'])
         if mode == 'ok':
             up.color = rng.choice(colors[:3] if link else colors)
@@ -1102,7 +1171,12 @@ def run_history(ctx, cache_type, meta, hours, nsteps, up, clock, script=None, li
             other = [v for kk in hot if kk != key for v in hist.validators[kk]]
             inm = rng.choice(other)[0] if other else None
         ims, ims_class, ims_t = gen_ims(rng, pre[0] if pre is not None else float(now), vals)
-        st = hist.do_request(svc, key, mode, inm, ims, ims_class, ims_t, now)
+        overlap = None
+        if refresh and cache_type == 'file' and pre is not None and app.is_stale(pre) and mode == 'ok' and rng.random() < 0.5:
+            # two overlapping requests for the stale tile: this one waits for the lock while the other refreshes it
+            overlap = (rng.choice(SERVICES), rng.choice(colors))
+            ctx.count('app:schedule=overlap')
+        st = hist.do_request(svc, key, mode, inm, ims, ims_class, ims_t, now, overlap=overlap)
         if ims_class in ('bad', 'oor') and st is not None:
             # the twin request without the header: a malformed date must make no difference
             tw_before = hist.store[key]
@@ -1207,7 +1281,8 @@ def run_app_stream(ctx):
                 continue
             c = json.load(open(os.path.join(cdir, fn)))
             hist = run_history(ctx, c['cache'], c.get('meta', 1), c.get('hours', 72), 0, up, clock, script=c['script'],
-                               link=c.get('link'), refresh=c.get('refresh', False), two=c.get('two', False))
+                               link=c.get('link'), refresh=c.get('refresh', False), two=c.get('two', False),
+                               auth=c.get('auth', False))
             hist.label = 'corpus/' + fn
             ctx.count('app:corpus')
             ctx.corr_check('corpus_' + fn[:-5].replace('-', '_'), 'Cond',
@@ -1232,6 +1307,12 @@ def run_app_stream(ctx):
                            'store * event * list (Z * entry) * option outcome * store', hist.terms,
                            CHECKER % (72 * 3600), lambda i, h=hist: h.descr[i], shard=60)
         up.two = False
+        # authorization callback that limits the layer to an area cutting some tiles partly (masked answers)
+        for cache_type in ('file', 'sqlite'):
+            hist = run_history(ctx, cache_type, 1, 72, ctx.n(60, 400), up, clock, auth=True)
+            ctx.corr_check('app_%s_limited_to' % cache_type, 'Cond',
+                           'store * event * list (Z * entry) * option outcome * store', hist.terms,
+                           CHECKER % (72 * 3600), lambda i, h=hist: h.descr[i], shard=60)
         # the same code in other time zones (HTTP dates are GMT whatever the zone of the process)
         for tz in ('America/New_York', 'Asia/Kolkata'):
             with TimeZone(tz):
